@@ -100,6 +100,12 @@ def encode_command_string(bcp_command, **kwargs) -> str:
             json_needed = True
             break
 
+        if isinstance(v, str) and (v.startswith(('int:', 'float:')) or
+                                   v.lower() in ('bool:true', 'bool:false') or v == 'NoneType:'):
+            # the plain encoding cannot tell this string from a typed value. use json.
+            json_needed = True
+            break
+
         value = quote(str(v), '')
 
         if isinstance(v, bool):  # bool isinstance of int, so this goes first
